@@ -255,7 +255,8 @@ package lua
 //@ modifies ghost(ls.stack), type callFrame.*, ls.currentFrame, ls.reg.array, ls.reg.top, ls.reg.array[*]
 
 //@ trusted callGFunction [C02 C06 C10]
-//@ assume callGFunction runs an arbitrary host function; its result adjustment (CopyRange of the top-most gfnret values) is verified separately below
+//@ assume callGFunction runs an arbitrary host function; its result adjustment (CopyRange of the top-most gfnret values) is verified separately below; every frame on the call stack has a non-nil function (pushCallFrame refuses nil)
+//@ ensures L.currentFrame != nil ==> L.currentFrame.Fn != nil
 //@ modifies everything
 
 // data-structure invariant of LFunction (established by newLFunctionL/newLFunctionG, the only constructors): a Lua function has a prototype
@@ -273,5 +274,29 @@ package lua
 //@ requires opB(inst) != 0 ==> lb(L) + opA(inst) + opB(inst) <= top(L)
 //@ requires opB(inst) == 0 ==> lb(L) + opA(inst) + 1 <= top(L)
 //@ requires fnsValid() && mtsValid(L)
+//@ cut@"nvarargs := nargs - np" the vararg relocation of the inlined initCallFrame is not verified yet
+//@ modifies everything
+
+// ---------------------------------------------------------------------------
+// Upvalues (C03), safety level: every open upvalue points into the registry of its thread.
+// ---------------------------------------------------------------------------
+
+//@ define uvsValid(L *LState) bool = forall u *Upvalue :: u != nil && !u.closed && u.reg != nil ==> u.reg == L.reg && 0 <= u.index && u.index < len(L.reg.array)
+
+//@ func (*LState).closeUpvalues [C03 C07]
+//@ requires ls != nil && ls.reg != nil && Inv_reg(ls.reg) && uvsValid(ls)
+//@ noraise
+//@ ensures  uvsValid(ls) && Inv_reg(ls.reg) && ls.reg == old(ls.reg) && ls.reg.top == old(ls.reg.top) && ls.reg.array == old(ls.reg.array)
+//@ ensures  forall k int :: 0 <= k && k < len(ls.reg.array) ==> ls.reg.array[k] == old(ls.reg.array[k])
+//@ modifies ls.uvcache, type Upvalue.next, type Upvalue.closed, type Upvalue.value
+//@ loop 1 invariant uvsValid(ls)
+
+// OP_TAILCALL: thin contract (no implicit Go panic; inlined closeUpvalues/initCallFrame/CopyRange copies satisfy
+// the contracts of their source functions).
+//@ func jumpTable[OP_TAILCALL] [C02 C03 C07 C12]
+//@ requires Frame(L) && L.stack != nil && $inv(L.stack) && L.G != nil && regsValid(L) && opA(inst) < nreg(L) && fnsValid() && mtsValid(L) && uvsValid(L)
+//@ requires opB(inst) != 0 ==> lb(L) + opA(inst) + opB(inst) <= top(L)
+//@ requires opB(inst) == 0 ==> lb(L) + opA(inst) + 1 <= top(L)
+//@ requires 0 <= L.currentFrame.Base && L.currentFrame.Base < lb(L)
 //@ cut@"nvarargs := nargs - np" the vararg relocation of the inlined initCallFrame is not verified yet
 //@ modifies everything
